@@ -583,14 +583,27 @@ def parse_args(argv):
             print("[%s] anchored source changed since the recorded fingerprints (%s): quick pass first, then the thorough budget"
                   % (a.pid, ", ".join(ch[:4]) + (" ..." if len(ch) > 4 else "")), flush=True)
             import subprocess
-            rc = subprocess.call([sys.executable, "-W", "ignore", os.path.abspath(sys.argv[0])] + list(argv),
-                                 env=dict(os.environ, VERIF_NO_ESCALATE="1"))
-            if rc != 0:
+            pr = subprocess.Popen([sys.executable, "-W", "ignore", os.path.abspath(sys.argv[0])] + list(argv),
+                                  env=dict(os.environ, VERIF_NO_ESCALATE="1"), stdout=subprocess.PIPE, text=True)
+            vlines = []
+            for line in pr.stdout:
+                sys.stdout.write(line)
+                sys.stdout.flush()
+                if line.startswith("VIOLATION "):
+                    vlines.append(line.strip())
+            rc = pr.wait()
+            if rc != 0 and not (vlines and all(v.endswith("no-failing-input-found") for v in vlines)):
                 sys.exit(rc)
+            if rc != 0:
+                # only a proof obligation / the correspondence broke, no concrete input yet: the thorough budget goes on searching
+                # for one (this run reports the broken obligation again, so the verdict stays a violation)
+                print("[%s] quick pass reported broken obligations without a failing input: searching with the thorough budget" % a.pid,
+                      flush=True)
             # the child removed the property's scratch directory when it finished; this process still needs its HOME
             if os.environ.get("VERIF_ISOLATED") == a.pid:
                 os.makedirs(os.environ["HOME"], exist_ok=True)
             ESCALATED.extend(ch)
-            print("[%s] quick pass clean on the changed source: running with the thorough budget" % a.pid, flush=True)
+            if rc == 0:
+                print("[%s] quick pass clean on the changed source: running with the thorough budget" % a.pid, flush=True)
             a.tier = "thorough"
     return a
